@@ -25,13 +25,18 @@ class ArgsFamily(ScenarioFamily):
 
     chunk = 30
 
-    def __init__(self, name, ex, nq, nt):
+    def __init__(self, name, ex, nq, nt, seam=None):
         super().__init__("C16", name, nq, nt)
         self.ex = ex
+        self.seam = seam
 
     def generate(self, seed, index, tier):
         r = gen.mk_rng(seed, "c16args")
         scn = base_scenario(seed, index, self.ex)
+        if self.seam:
+            if self.ex == "threads" and scn["ctype"] == "stun_h1":
+                scn = base_scenario(seed, index + 1, self.ex)
+            scn["seam"] = self.seam
         scn["log_sites"] = True
         scn["epilogue"] = ["close_pool"]
         if self.ex == "threads":
@@ -69,6 +74,8 @@ class ArgsFamily(ScenarioFamily):
                         "send": "write"}[kind]
             want = d.get(want_key)
             negotiating = site is not None and site.startswith("socks_proxy.py:_init")
+            if site is None:
+                continue
             if negotiating:
                 vals = [d.get(k) for k in ("connect", "read", "write")]
                 if all(v is not None for v in vals):
@@ -112,6 +119,60 @@ class ArgsFamily(ScenarioFamily):
 
     def nontrivial(self, res, scn):
         return True
+
+
+class StallFamilyL2(ScenarioFamily):
+    """Seam L2 (async): the real AnyIOBackend's anyio.fail_after() must fire in virtual
+    time when an operation stalls: matching exception class at exactly start + value."""
+
+    chunk = 30
+
+    def generate(self, seed, index, tier):
+        r = gen.mk_rng(seed, "c16stall")
+        scn = base_scenario(seed, (index % 11), "asyncio")   # company "alone"
+        scn["seam"] = "L2"
+        scn["log_sites"] = True
+        scn["epilogue"] = ["close_pool"]
+        scn["net"]["close_latency"] = 0.0
+        vals = {"connect": r.choice([1.1, 0.7]), "read": r.choice([2.2, 0.9]),
+                "write": r.choice([3.3, 1.3]), "pool": 30.0}
+        for c in scn["callers"]:
+            for op in c["ops"]:
+                op["timeouts"] = dict(vals)
+        scn["net"]["fault_once"] = r.choice(["read_timeout", "write_timeout", "connect_timeout",
+                                             "tls_timeout"])
+        scn["c16"] = {"vals": vals}
+        return scn
+
+    def post(self, res, scn):
+        w = res.world
+        if not w.fault_sites:
+            return
+        n, fault, opkind, site = w.fault_sites[0]
+        ev = next(e for e in w.ledger.of("op") if e[3] == n)
+        vals = scn["c16"]["vals"]
+        key = {"connect": "connect", "tls": "connect", "recv": "read", "send": "write"}[opkind]
+        if site is not None and site.startswith("socks_proxy.py:_init"):
+            key = "connect"
+        tok = ev[7]
+        out = next((o for o in res.outcomes.values() if o["token"] == tok), None)
+        if out is None:
+            return
+        # the class follows the operation (a negotiation read that times out is a
+        # ReadTimeout), the value follows the phase (negotiation uses the connect value)
+        want_exc = {"connect": "ConnectTimeout", "tls": "ConnectTimeout", "recv": "ReadTimeout",
+                    "send": "WriteTimeout"}[opkind]
+        exc_ev = next((x for x in w.ledger.of("exc") if x[4] == tok), None)
+        if out.get("exc") != want_exc:
+            w.violate("C16", "L2:stalled-%s-raised-%s" % (opkind, out.get("exc") or out.get("status")),
+                      {"site": site, "expected": want_exc, "msg": out.get("msg")})
+            return
+        if exc_ev is not None and abs(exc_ev[1] - (ev[1] + vals[key])) > 1e-6:
+            w.violate("C16", "L2:stalled-%s-failed-at-wrong-instant" % opkind,
+                      {"start": ev[1], "value": vals[key], "raised": exc_ev[1], "site": site})
+
+    def nontrivial(self, res, scn):
+        return bool(res.world.fault_sites)
 
 
 def _which(got, d):
@@ -219,9 +280,14 @@ register("C16", {
             "connection frees up, and zero pool time-out with and without capacity, on asyncio "
             "(fifo+shuffle) and pre-emptive threads; all runs non-trivial",
     "assumptions": ["seam L1: the simulated stream honours the timeout it is given; what is "
-                    "checked is which value httpcore passes to which operation"],
+                    "checked is which value httpcore passes to which operation",
+                    "seam L2 (two families): the real SyncBackend's settimeout() values reach the "
+                    "fake socket, and the real AnyIOBackend's anyio.fail_after() fires in virtual "
+                    "time when an operation stalls"],
 }, [ArgsFamily("timeout-args-async", "asyncio", 1500, 30000),
     ArgsFamily("timeout-args-threads", "threads", 500, 10000),
     PoolDeadlineFamily("pool-deadline-async", "asyncio", 1500, 30000),
     PoolDeadlineFamily("pool-deadline-threads", "threads", 500, 10000),
-    PoolDeadlineFamily("pool-deadline-trio", "trio", 800, 15000)])
+    PoolDeadlineFamily("pool-deadline-trio", "trio", 800, 15000),
+    ArgsFamily("timeout-args-threads-L2", "threads", 400, 8000, seam="L2"),
+    StallFamilyL2("C16", "stalled-ops-async-L2", 800, 15000)])
